@@ -929,12 +929,28 @@ class Walker:
           self.bind(it.optional_vars, v, st, n)
       yield from self.block(n.body, st)
     elif isinstance(n, ast.Try):
-      self.note("try/except (handlers not walked)", None)
+      pre = st.fork()
       for kind, val, s in self.block(n.body, st):
         if kind == "fall":
           yield from self.block(list(n.orelse) + list(n.finalbody), s)
         else:
           yield (kind, val, s)
+      # handlers: entered from the state before the try with everything the body assigns havocked
+      assigned = self.assigned_names(n.body)
+      for h in n.handlers:
+        hs = pre.fork()
+        for v in assigned:
+          hs.env[v] = self.sym(v)
+        et = ast.unparse(h.type) if h.type is not None else "BaseException"
+        hs.assume(("opaque", P("except", et)), True, h)
+        if h.name:
+          hs.env[h.name] = self.sym(h.name)
+        self.emit("except", h, hs, exc=et)
+        for kind, val, s in self.block(h.body, hs):
+          if kind == "fall":
+            yield from self.block(list(n.finalbody), s)
+          else:
+            yield (kind, val, s)
     elif isinstance(n, (ast.Pass, ast.Import, ast.ImportFrom, ast.Global, ast.Nonlocal, ast.Assert)):
       yield ("fall", None, st)
     elif isinstance(n, (ast.FunctionDef, ast.ClassDef)):
